@@ -13,6 +13,7 @@ OpenL(xs)   == [t |-> "l", c |-> FALSE, v |-> xs]
 ClosedL(xs) == [t |-> "l", c |-> TRUE, v |-> xs]
 Dict(ps)    == [t |-> "d", v |-> ps, pi |-> <<>>] \* ps : Seq(<<name, value>>), insertion order; pi : parse information (C12)
 Tagged(r, x) == [t |-> "g", r |-> r, v |-> x]    \* result of the "tagging" semantic action of C06
+Obj(cls, bases, attrs) == [t |-> "o", cls |-> cls, bases |-> bases, v |-> attrs, pi |-> <<>>]   \* object-model node (C07): attrs as Dict pairs
 IsOpen(x)   == x.t = "l" /\ ~x.c
 IsList(x)   == x.t = "l"
 
@@ -63,6 +64,8 @@ VEq(a, b) ==
        [] a.t = "d" -> /\ Len(a.v) = Len(b.v)
                        /\ \A i \in 1..Len(a.v) : \E j \in 1..Len(b.v) : a.v[i][1] = b.v[j][1] /\ VEq(a.v[i][2], b.v[j][2])
        [] a.t = "g" -> a.r = b.r /\ VEq(a.v, b.v)
+       [] a.t = "o" -> /\ a.cls = b.cls /\ Len(a.v) = Len(b.v)
+                       /\ \A i \in 1..Len(a.v) : \E j \in 1..Len(b.v) : a.v[i][1] = b.v[j][1] /\ VEq(a.v[i][2], b.v[j][2])
        [] OTHER -> FALSE
 
 \* ---- sequences of characters
